@@ -4,7 +4,7 @@ use rustc_abi::{FieldsShape, Primitive, Scalar, TagEncoding, Variants};
 use rustc_hir::def::DefKind;
 use rustc_hir::def_id::{DefId, LocalDefId, LOCAL_CRATE};
 use rustc_middle::thir::{self, BlockId, ExprId, ExprKind, Pat, PatKind, StmtKind, Thir};
-use rustc_middle::ty::print::{with_crate_prefix, with_no_trimmed_paths, PrintTraitRefExt};
+use rustc_middle::ty::print::{with_crate_prefix, with_no_trimmed_paths, with_no_visible_paths, PrintTraitRefExt};
 use rustc_middle::ty::{self, GenericArgsRef, Ty, TyCtxt, TypeVisitableExt};
 use rustc_span::Span;
 use std::cell::RefCell;
@@ -22,7 +22,7 @@ fn defkind_name(k: DefKind) -> String {
 
 impl<'tcx> Cx<'tcx> {
     fn ty_s(&self, t: Ty<'tcx>) -> String {
-        self.fix_crate(with_crate_prefix!(with_no_trimmed_paths!(t.to_string())))
+        self.fix_crate(with_no_visible_paths!(with_crate_prefix!(with_no_trimmed_paths!(t.to_string()))))
     }
     /// `crate::X` (printed for local items) -> `<crate name>::X`
     fn fix_crate(&self, s: String) -> String {
@@ -100,7 +100,7 @@ impl<'tcx> Cx<'tcx> {
                         let self_ty = tcx.type_of(parent).instantiate_identity().skip_norm_wip();
                         if of_trait {
                             let tr = tcx.impl_trait_ref(parent).instantiate_identity().skip_norm_wip();
-                            let trs = self.fix_crate(with_crate_prefix!(with_no_trimmed_paths!(tr.print_only_trait_path().to_string())));
+                            let trs = self.fix_crate(with_no_visible_paths!(with_crate_prefix!(with_no_trimmed_paths!(tr.print_only_trait_path().to_string()))));
                             return format!("<{} as {}>::{}", self.ty_s(self_ty), trs, name);
                         } else {
                             return format!("{}::{}", self.self_ty_path(self_ty), name);
@@ -153,7 +153,7 @@ impl<'tcx> Cx<'tcx> {
                             self.note_layout(t);
                         }
                     }
-                    J::s(self.fix_crate(with_crate_prefix!(with_no_trimmed_paths!(a.to_string()))))
+                    J::s(self.fix_crate(with_no_visible_paths!(with_crate_prefix!(with_no_trimmed_paths!(a.to_string())))))
                 })
                 .collect(),
         )
@@ -991,7 +991,7 @@ pub fn export_crate<'tcx>(tcx: TyCtxt<'tcx>, out_dir: &str) {
                 let ps: Vec<J> = preds
                     .predicates
                     .iter()
-                    .map(|p| J::s(cx.fix_crate(with_crate_prefix!(with_no_trimmed_paths!(p.skip_norm_wip().to_string())))))
+                    .map(|p| J::s(cx.fix_crate(with_no_visible_paths!(with_crate_prefix!(with_no_trimmed_paths!(p.skip_norm_wip().to_string()))))))
                     .collect();
                 im.set("where", J::Arr(ps));
                 let (file, line) = cx.line(tcx.def_span(did));
